@@ -1,4 +1,5 @@
 import Proofs.Lemmas.ContainerOps
+import Proofs.Lemmas.ContainerIndex
 /-
 C09 — Container series keep their length and dtype under every assignment history.
 
@@ -33,13 +34,7 @@ instance (s : Store) : Decidable (Container.Inv s) := by unfold Container.Inv; i
 theorem step_ext (s : Store) (op : Op) : Ext s (step cfg s op).1 := by
   cases op with
   | addVariable name v dtype => exact addVariable_ext s name v dtype
-  | addAttribute name =>
-    simp only [step, addAttribute]
-    split
-    · exact Ext.refl s
-    · split
-      · exact Ext.refl s
-      · exact Ext.attrs s _ _
+  | addAttribute name => exact (addAttribute_all s name).1
   | setAttr name v alts => exact setAttr_ext s name v alts
   | setItem name v => exact setItem_ext s name v
   | setPos name i v => exact setPos_ext s name i v
@@ -110,13 +105,7 @@ theorem inv_step_partial {s : Store} (h : Container.Inv s) {op : Op} (hf : op.fl
     Container.Inv (step cfg s op).1 := by
   cases op with
   | addVariable name v dtype => exact addVariable_inv h name v dtype
-  | addAttribute name =>
-    simp only [step, addAttribute]
-    split
-    · exact h
-    · split
-      · exact h
-      · exact h
+  | addAttribute name => exact (addAttribute_all s name).2.1 h
   | setAttr name v alts => exact setAttr_inv h alts hf
   | setItem name v => exact setItem_inv h hf
   | setPos name i v => exact setPos_inv h name i v
@@ -311,6 +300,160 @@ example :
       = ["_Y", "_attributes", "span", "index", "_strict"] := by
   decide
 
+/-! ### No key of the instance dict is claimed twice -/
+
+/-- A variable `X` lives in `__dict__['_X']`; attributes live under their own names.  `NoClash`: no attribute (and no
+    other entry of the object) sits on the storage key of a variable — so every variable's storage holds its array,
+    which is what makes the model's separation of `vars` and `attrs` a faithful picture of the object. -/
+def NoClash (s : Store) : Prop := ∀ k ∈ s.varKeys, k ∉ s.attrKeys
+
+theorem NoClash.mono {s s' : Store} (h : NoClash s) (hi : s'.index = s.index) (he : s'.extraKeys = s.extraKeys)
+    (ha : ∀ a ∈ s'.attrs, a ∈ s.attrs ∨ a = "strict" ∨ a = "values" ∨ a ∉ s.varKeys) : NoClash s' := by
+  intro k hk hkA
+  have hk' : k ∈ s.varKeys := by simpa [Store.varKeys, hi] using hk
+  simp only [Store.attrKeys, List.mem_append, List.mem_filter] at hkA
+  rcases hkA with ⟨hm, hf⟩ | hx
+  · rcases ha k hm with h1 | h1 | h1 | h1
+    · exact h k hk' (by simp only [Store.attrKeys, List.mem_append, List.mem_filter]; exact Or.inl ⟨h1, hf⟩)
+    · rw [h1] at hf; simp at hf
+    · rw [h1] at hf; simp at hf
+    · exact h1 hk'
+  · rw [he] at hx
+    exact h k hk' (by simp only [Store.attrKeys, List.mem_append]; exact Or.inr hx)
+
+/-- A fresh container has no clash (it has no variable). -/
+theorem no_clash_init (span : List Nat) (kind : SpanKind) (strict : Bool) : NoClash (init span kind strict) := by
+  intro k hk
+  simp [init, Store.varKeys, Store.index] at hk
+
+theorem mem_appendNew' {xs : List Name} {x a : Name} (h : a ∈ appendNew xs x) : a ∈ xs ∨ a = x := by
+  unfold appendNew at h
+  split at h
+  · exact Or.inl h
+  · rcases List.mem_append.mp h with h' | h'
+    · exact Or.inl h'
+    · right; simpa using h'
+
+theorem no_clash_addAttribute (h2 : cfg.addAttrChecksKeys = true) {s : Store} (h : NoClash s) (name : Name) :
+    NoClash (addAttribute cfg s name).1 := by
+  rcases addAttribute_cases cfg s name with hc | ⟨hc, _, _, hk⟩
+  · rw [hc]; exact h
+  · rw [hc]
+    have hnk : name ∉ s.dictKeys := by rw [h2] at hk; simpa using hk
+    refine h.mono rfl rfl (fun a ha => ?_)
+    rcases List.mem_append.mp ha with h1 | h1
+    · exact Or.inl h1
+    · right; right; right
+      simp at h1; rw [h1]
+      intro hv; exact hnk (by simp only [Store.dictKeys, List.mem_append]; exact Or.inl hv)
+
+/-- **An attribute can never take a variable's storage key, nor a variable an attribute's** (configuration: both
+    key checks in force — `Cfg.current` is read off the code on every run): every operation with every operand
+    preserves `NoClash`. -/
+theorem no_clash_step (h1 : cfg.addVarChecksKeys = true) (h2 : cfg.addAttrChecksKeys = true) {s : Store}
+    (h : NoClash s) (op : Op) : NoClash (step cfg s op).1 := by
+  have hek := (step_ext (cfg := cfg) s op).extraKeys
+  cases op with
+  | addVariable name v dtype =>
+    rcases addVariable_cases cfg s name v dtype with ⟨e, he⟩ | ⟨a, _, _, _, _, hk, he⟩
+    · rw [show step cfg s (.addVariable name v dtype) = addVariable cfg s name v dtype from rfl, he]; exact h
+    · rw [show step cfg s (.addVariable name v dtype) = addVariable cfg s name v dtype from rfl, he]
+      have hnk : ("_" ++ name) ∉ s.dictKeys := by rw [h1] at hk; simpa using hk
+      intro k hk' hkA
+      simp only [Store.varKeys, Store.index, List.map_append, List.map_cons, List.map_nil, List.mem_append,
+        List.mem_singleton, List.mem_map] at hk'
+      rcases hk' with ⟨x, hx, rfl⟩ | rfl
+      · exact h _ (by simp only [Store.varKeys, Store.index, List.mem_map]; exact ⟨x, hx, rfl⟩) hkA
+      · exact hnk (by simp only [Store.dictKeys, List.mem_append]; exact Or.inr hkA)
+  | addAttribute name => exact no_clash_addAttribute h2 h name
+  | setAttr name v alts =>
+    simp only [step, setAttr]
+    split
+    · exact h
+    · cases hg : s.get name with
+      | some ser =>
+        exact h.mono (assignWhole_index _ _ _ _) (by simpa [step, setAttr, hg] using (assignWhole_ext (cfg := cfg) hg v).extraKeys)
+          (fun a ha => Or.inl ((assignWhole_attrs _ _ _ _).1 ▸ ha))
+      | none =>
+        dsimp only
+        split
+        · refine h.mono rfl rfl (fun a ha => ?_)
+          rename_i hstrict
+          rcases mem_appendNew' ha with h' | h'
+          · exact Or.inl h'
+          · right; left; rw [h']; simpa using hstrict
+        · split
+          · exact h
+          · exact no_clash_addAttribute h2 h name
+  | setItem name v =>
+    exact h.mono (setItem_index _ _ _) hek (fun a ha => Or.inl ((setItem_attrs _ _ _).1 ▸ ha))
+  | setPos name i v =>
+    exact h.mono (setPos_index _ _ _ _) hek (fun a ha => Or.inl ((setPos_attrs _ _ _ _).1 ▸ ha))
+  | setPosSlice name a b st v =>
+    exact h.mono (setPosSlice_index _ _ _ _ _ _) hek (fun x ha => Or.inl ((setPosSlice_attrs _ _ _ _ _ _).1 ▸ ha))
+  | setLabel name l v =>
+    exact h.mono (setLabel_index _ _ _ _) hek (fun a ha => Or.inl ((setLabel_all _ _ _ _).2.2.2.1 ▸ ha))
+  | setLabelSlice name a b st v =>
+    exact h.mono (setLabelSlice_index _ _ _ _ _ _) hek
+      (fun x ha => Or.inl ((setLabelSlice_all _ _ _ _ _ _).2.2.2.1 ▸ ha))
+  | replaceValues kvs =>
+    exact h.mono (replaceValues_index _ _) hek (fun a ha => Or.inl ((replaceValues_attrs _ _).1 ▸ ha))
+  | setValues v alts =>
+    simp only [step, setValues] at hek ⊢
+    split
+    · exact h
+    · cases hg : s.get "values" with
+      | some ser =>
+        exact h.mono (assignWhole_index _ _ _ _) (assignWhole_ext (cfg := cfg) hg v).extraKeys
+          (fun a ha => Or.inl ((assignWhole_attrs _ _ _ _).1 ▸ ha))
+      | none =>
+        dsimp only
+        have hi := setValuesCore_index (cfg := cfg) s v
+        have hx := (setValuesCore_all (cfg := cfg) s v).1.extraKeys
+        have hat := (setValuesCore_all (cfg := cfg) s v).2.2.1
+        generalize setValuesCore cfg s v = r at hi hat hx
+        obtain ⟨s', o⟩ := r
+        cases o with
+        | raised e => exact h.mono hi hx (fun a ha => Or.inl (hat ▸ ha))
+        | ok =>
+          refine h.mono hi hx (fun a ha => ?_)
+          dsimp only at ha hat
+          rcases mem_appendNew' ha with h' | h'
+          · exact Or.inl (hat ▸ h')
+          · right; right; left; exact h'
+  | setStrict b alts =>
+    simp only [step, setStrict]
+    split
+    · exact h
+    · cases hg : s.get "strict" with
+      | some ser =>
+        exact h.mono (assignWhole_index _ _ _ _) (assignWhole_ext (cfg := cfg) hg _).extraKeys
+          (fun a ha => Or.inl ((assignWhole_attrs _ _ _ _).1 ▸ ha))
+      | none =>
+        refine h.mono rfl rfl (fun a ha => ?_)
+        rcases mem_appendNew' ha with h' | h'
+        · exact Or.inl h'
+        · right; left; exact h'
+  | badKey t => exact h
+
+/-- … hence after every history: with both key checks in force the object reached by any sequence of operations
+    from a fresh container still stores every variable's array under its own key. -/
+theorem no_clash_history (h1 : cfg.addVarChecksKeys = true) (h2 : cfg.addAttrChecksKeys = true) {s : Store}
+    (h : NoClash s) (ops : List Op) : NoClash (run cfg s ops) := by
+  induction ops generalizing s with
+  | nil => exact h
+  | cons op ops ih => exact ih (no_clash_step h1 h2 h op)
+
+/-- Under the fixed configuration `obj._A = 5` and `add_attribute('_A')` are refused when `A` is a variable; as
+    shipped they were accepted (`_A` joined the attribute list — on the real object it replaced A's array). -/
+example :
+    (step Cfg.fixed witnessStore (.setAttr "_A" (.scalar (.i 5)) [])).2 = .raised .duplicateName ∧
+    (step Cfg.fixed witnessStore (.addAttribute "_A")).2 = .raised .duplicateName ∧
+    (step Cfg.shipped witnessStore (.setAttr "_A" (.scalar (.i 5)) [])).1.attrs
+      = ["_attributes", "span", "index", "_strict", "_A"] ∧
+    (step Cfg.fixed witnessStore (.setAttr "Q" (.scalar (.i 5)) [])).2 = .ok := by
+  decide
+
 /-- Non-vacuity, four ways to not fit: wrong length, unknown name, duplicate name, position out of range. -/
 example : (step Cfg.shipped witnessStore (.setAttr "A" (.list [.i 1, .i 2]) [])).2 = .raised .dimension ∧
     (step Cfg.shipped witnessStore (.setItem "Z" (.scalar (.i 1)))).2 = .raised .key ∧
@@ -482,9 +625,12 @@ theorem strict_no_new_attribute {s : Store} (hs : s.strict = true) {op : Op}
             · exact Or.inl h'
             · right; rw [h']; exact hex
           · simp only [hat, Bool.false_eq_true, if_false] at ha
-            rcases List.mem_append.mp ha with h' | h'
-            · exact Or.inl h'
-            · right; simp at h'; rw [h']; exact hex
+            rcases addAttribute_cases cfg s name with hc | ⟨hc, _⟩
+            · rw [hc] at ha; exact Or.inl ha
+            · rw [hc] at ha
+              rcases List.mem_append.mp ha with h' | h'
+              · exact Or.inl h'
+              · right; simp at h'; rw [h']; exact hex
   | setItem name v => rw [show (step cfg s (.setItem name v)) = setItem cfg s name v from rfl, (setItem_attrs _ _ _).1] at ha; exact Or.inl ha
   | setPos name i v => rw [show (step cfg s (.setPos name i v)) = setPos s name i v from rfl, (setPos_attrs _ _ _ _).1] at ha; exact Or.inl ha
   | setPosSlice name a' b st v =>
